@@ -116,3 +116,16 @@ class loop_budget(object):
         mon.register_callback(self.tool, mon.events.JUMP, None)
         mon.free_tool_id(self.tool)
         return False
+
+
+def functions_of(*modules_or_classes):
+    """every function code object defined in the given modules / classes (for loop_budget)"""
+    import inspect
+    out = []
+    for m in modules_or_classes:
+        for name, obj in inspect.getmembers(m):
+            if inspect.isfunction(obj) and (inspect.isclass(m) or obj.__module__ == getattr(m, "__name__", None)):
+                out.append(obj.__code__)
+            elif inspect.isclass(obj) and inspect.ismodule(m) and obj.__module__ == m.__name__:
+                out.extend(functions_of(obj))
+    return out
